@@ -1447,6 +1447,48 @@ fn run_docs(args: &Args, rec: &mut Recorder) {
         pats.push(vec![y, 100]);
         pats.push(vec![100 + m as u32, x]);
         rec.count(&format!("deep-context.predecessors{}", m));
+        // The code book of the deep context is looked at first: with a malformed book (two words
+        // equal, one a prefix of another) the index built over it need not terminate, and a run
+        // that does not end names no defect.  On a well-formed book nothing is recorded here.
+        {
+            use scrunch::encoder::{Encoder, HuffmanEncoder};
+            let row: Vec<u32> = counts.iter().enumerate().flat_map(|(j, c)| std::iter::repeat(100 + j as u32).take(*c)).collect();
+            let book: Result<Vec<Option<(u32, u8)>>, String> = g(|| {
+                let enc = HuffmanEncoder::construct(&row);
+                (0..m).map(|j| enc.encode(100 + j as u32)).collect()
+            });
+            let mut what: Option<String> = None;
+            match &book {
+                Err(p) => what = Some(format!("HuffmanEncoder::construct panicked: {}", p)),
+                Ok(book) => {
+                    'pf: for a in 0..m {
+                        for b in 0..m {
+                            if a == b {
+                                continue;
+                            }
+                            match (book[a], book[b]) {
+                                (Some((ca, la)), Some((cb, lb))) => {
+                                    if la >= 1 && la <= lb && lb < 32 && (cb & ((1u32 << la) - 1)) == ca {
+                                        what = Some(format!("code of {} ({}:{}) is a prefix of the code of {} ({}:{})", 100 + a, ca, la, 100 + b, cb, lb));
+                                        break 'pf;
+                                    }
+                                }
+                                (None, _) => {
+                                    what = Some(format!("symbol {} has no code", 100 + a));
+                                    break 'pf;
+                                }
+                                _ => {}
+                            }
+                        }
+                    }
+                }
+            }
+            if let Some(w) = what {
+                let tag = format!("# deep-context {} predecessors: code book of the context", m);
+                rec.case(&tag, "#", Verdict::Fail { class: "huffman-book-malformed".into(), detail: format!("Fibonacci frequencies over {} symbols: {}", m, w) }, Some(fnv(tag.as_bytes())));
+                continue;
+            }
+        }
         big_case(rec, &mut rng, DocCase { text, rb, pats, shape: "fibonacci-context", alpha: "small", bkind: "every-third", k: m + 2 }, "deep-context");
     }
 }
